@@ -38,5 +38,12 @@ func runC01(c *core.Ctx) {
 	checkMultiset(c, "ABS5", msSite{rel: "execution/nodes", fn: "(*OrderSensitiveTransform).Run", callback: true, countField: "Count"}, ids)
 	checkMultiset(c, "ABS5", msSite{rel: "outputs/batch", fn: "(*OutputPrinter).Run", callback: true, countField: "Count"}, ids)
 	c.Floor("ABS5", 21, "3 containers × 7 (count, operation) cases")
+	c.Rule("CTOR", "operator constructors store their arguments verbatim")
+	checkConstructors(c, "CTOR", "execution", "execution/nodes")
 	checkPlanSwitches(c)
+	// the default pipeline optimizes: column pruning must keep what DISTINCT, unnest and subqueries consume
+	c.Rule("OPT4", "column pruning keeps every column a node consumes (shared with C04)")
+	c.Rule("OPT3", "column pruning cuts parallel slices at corresponding positions (shared with C04)")
+	checkIsUsed(c)
+	checkPruners(c)
 }
